@@ -341,8 +341,11 @@ pub fn judge(out: &SetOut) -> Result<u64, (String, String)> {
     for (t, inv, resp, what, keys) in &out.walks {
         let mut sorted = keys.clone();
         sorted.sort();
-        if let Some(w) = sorted.windows(2).find(|w| w[0] == w[1]) {
-            return Err(("C07".into(), format!("[C07] the {} of T{} over steps {}..{} yielded key {} twice", what, t, inv, resp, w[0])));
+        // (a key that was removed and inserted again while the traversal ran may legitimately be met
+        // twice: two incarnations at two positions; only untouched keys must appear exactly once)
+        let touched_during = |k: u32| out.ops.iter().any(|e| e.key == k && e.inv <= *resp && e.resp >= *inv && !matches!(e.op, HOp::Get { .. } | HOp::Contains { .. }));
+        if let Some(w) = sorted.windows(2).find(|w| w[0] == w[1] && !touched_during(w[0])) {
+            return Err(("C07".into(), format!("[C07] the {} of T{} over steps {}..{} yielded key {} twice although no operation touched that key meanwhile", what, t, inv, resp, w[0])));
         }
         let touched_before_end = |k: u32, inserts_only: bool| out.ops.iter().any(|e| e.key == k && e.inv <= *resp && (!inserts_only || matches!(e.op, HOp::SetInsert { .. })) && !matches!(e.op, HOp::Get { .. } | HOp::Contains { .. }));
         for (k, _) in &out.init {
